@@ -67,8 +67,9 @@ class PFn:
     """one Lean function to produce from one Python function"""
 
     def __init__(self, qualname, leanname, params, ret, self_type=None, ctx=(), returns=None, locals_=None,
-                 inlines=(), part=None):
-        self.part = part                # None = the whole function; "while-body" = the body of its (only) `while` loop
+                 inlines=(), part=None, body_fn=None):
+        self.part = part                # None = the whole function; "while-body" = the body of its (only) `while` loop;
+        self.body_fn = body_fn          # "while" = that loop itself (its body is the separately translated `body_fn`)
         self.qualname = qualname
         self.leanname = leanname
         self.params = params            # [(pyname, type)] excluding self
@@ -1172,7 +1173,7 @@ class Tr:
             self.types["self"] = "Parser"
             self.types["info"] = "Info"
         declared = dict(sp.params)
-        for a in (fn.args.args if sp.part is None else []):
+        for a in (fn.args.args if sp.part is None else []):  # (parts declare their free variables in the spec)
             n = a.arg
             if n == "self": continue
             if n not in declared: raise Untranslatable("parameter %s of %s has no declared type" % (n, sp.qualname))
@@ -1192,6 +1193,33 @@ class Tr:
                     self.types[n] = t
                     if not (n == "info" and sp.self_type == "Parser"):
                         params.append("(%s : %s)" % (self.lname(n), lty(t)))
+        if sp.part == "while":
+            # `while c: BODY` with BODY translated separately (part "while-body", same state tuple): a fuel-bounded recursion;
+            # out of fuel is the distinguished error NotImplemented
+            loops = [n for n in ast.walk(fn) if isinstance(n, ast.While)]
+            if len(loops) != 1 or loops[0].orelse: raise Untranslatable("%s: exactly one while loop is expected" % sp.qualname)
+            for n, t in sp.params:
+                if t != "Skip" and n not in self.types:
+                    self.types[n] = t
+                    if not (n == "info" and sp.self_type == "Parser"):
+                        params.append("(%s : %s)" % (self.lname(n), lty(t)))
+            pre = []
+            c = self.C(loops[0].test, pre)
+            if pre or isinstance(c, bool): raise Untranslatable("loop condition")
+            state = sp.returns
+            names = [n for n, t in sp.params if t != "Skip" and not (n == "info" and sp.self_type == "Parser")]
+            def arg(n):
+                if n in state:
+                    k = state.index(n)
+                    return "s_" + ".2" * k + (".1" if k < len(state) - 1 else "")
+                return self.lname(n)
+            lead = " ".join(a.split(":")[0].strip("( ") for a in params[:len(params) - len(names)])
+            call = "%s fuel %s %s" % (sp.leanname, lead, " ".join(arg(n) for n in names))
+            body = "%s %s %s" % (sp.body_fn, lead, " ".join(self.lname(n) for n in names))
+            return ("/-- translated from `%s:%s` (the `while` loop; its body is `%s`) -/\ndef %s (fuel : Nat) %s : Py.R (%s) :=\n"
+                    "if %s then\n(match fuel with\n| 0 => .error .NotImplemented\n| fuel + 1 =>\nExcept.bind (%s) (fun s_ =>\n%s))\n"
+                    "else .ok %s\n") % (relfile, sp.qualname, sp.body_fn, sp.leanname, " ".join(params), lty(sp.ret), c, body, call,
+                                       self.ret_text(state))
         if sp.returns:
             k = lambda: ".ok %s" % self.returns_text()
             live = set(sp.returns) if isinstance(sp.returns, list) else {sp.returns}
@@ -1284,6 +1312,10 @@ PARSER_SPECS = [
          ("skipped_idxs", "NatList"), ("fuzzy", "Bool"), ("timestr", "Skip")], "StepRet", self_type="Parser", ctx=[CLS],
         returns=["l", "i", "res", "ymd", "skipped_idxs"], part="while-body", inlines=YMD_PROPS,
         locals_={"hour_offset": "Nat", "min_offset": "Nat"}),
+    PFn("parser._parse", "parseLoop",
+        [("l", "Toks"), ("i", "Nat"), ("len_l", "Nat"), ("info", "Info"), ("res", "Res"), ("ymd", "Ymd"),
+         ("skipped_idxs", "NatList"), ("fuzzy", "Bool"), ("timestr", "Skip")], "StepRet", self_type="Parser", ctx=[CLS],
+        returns=["l", "i", "res", "ymd", "skipped_idxs"], part="while", body_fn="parseStep"),
 ]
 
 
